@@ -16,7 +16,7 @@ import bs4.builder._htmlparser as HP
 from bs4.element import (Tag, NavigableString, Comment, CData, ProcessingInstruction, XMLProcessingInstruction,
                          Declaration, Doctype, Stylesheet, Script, TemplateString, RubyTextString,
                          RubyParenthesisString)
-import common
+import common, tokrec
 
 RULE = ("(a) documents written from a random tree model by an independent writer: void elements spelled <br>, <br/>, "
         "<br></br> at random (also with blanks inside the tags), non-void empty elements as <p></p> or <p/>, tag and "
@@ -30,9 +30,13 @@ RULE = ("(a) documents written from a random tree model by an independent writer
         "custom, None and EMPTY empty_element_tags; string_containers mapping to PreformattedString classes; store_line_numbers off); plus whitespace-centred documents (multi-character whitespace-only text, lone tab/CR/FF, elements nested in elements of the same whitespace-preserving / container name) and all concatenations of <= 4/5 pieces of {<pre>, </pre>, <b>, </b>, blank+tab, two newlines, x}. Non-trivial: the tree has >= 3 nodes. Distinct "
         "by (configuration, markup).")
 ASSUMPTIONS = [
-    "the standard-library tokenizer (html.parser.HTMLParser, convert_charrefs=False) is not modelled: its callback "
-    "stream is recorded per input; that it tokenizes a written document as Spec.DocSpec.hevents_of says is measured "
-    "on every generated document, not proved",
+    "the standard-library tokenizer (html.parser.HTMLParser, convert_charrefs=False) is not part of the repository: the "
+    "theorems about arbitrary input take its callback stream as recorded; Model/Tokenizer.v models it (tied by "
+    "correspondence on every input here and in C18's check, and by pattern / source fingerprints proved in Props/C18.v), "
+    "and for the sub-grammar Spec.DocWrite.simple_doc (lower-case names, script/style with raw text free of '<', attributes bare or "
+    "double-quoted without '&', text without '<' '&', ...) C04_string_tree_partial proves that the written TEXT becomes the tree; outside that sub-grammar, that "
+    "the tokenizer tokenizes a written document as Spec.DocSpec.hevents_of says is measured on every generated document, "
+    "not proved",
     "handle_charref: int() is modelled on the tokenizer's grammar ([0-9]+ | [xX][0-9a-fA-F]+) with unbounded "
     "integers; names outside it (never sent by the tokenizer) and int()'s digit limit (> 4300 digits; left to C06) "
     "are outside the model",
@@ -1166,6 +1170,10 @@ def load_corpus():
 def run(ctx):
     rng = ctx.rng
     b = Batch(ctx)
+    if "TRANSLATOR-FAILED gen_c18" in (getattr(ctx.build, "tables_msg", "") or ""):
+        # the text-level theorems rest on Model/Tokenizer.v, which translator/gen_c18.py ties to the installed html.parser
+        ctx.disagree("translator/gen_c18.py (fail-closed): the tokenizer model is no longer tied to the installed html.parser / "
+                     "to the way bs4 drives it", {"markup": "", "kind": "translator"}, ctx.build.tables_msg[-400:], None)
     for cname, markup in load_corpus():
         b.add(CONFIG[cname], markup, "corpus")
     # (b) exhaustive small scope
@@ -1219,10 +1227,135 @@ def run(ctx):
             if not isinstance(soup, str) and soup.original_encoding:
                 b.add(dict(CONFIG["default"], kwargs={"from_encoding": enc}), data.decode("ascii"), "bytes",
                       orig=soup.original_encoding)
+    bridge_cases(ctx, rng, b)
     b.flush()
     reference_cases(ctx)
+    tokenizer_correspondence(ctx, rng)
     ctx.sample({"exhaustive_piece_example": "<br><br/>x</br>",
                 "tree": repr(strip_pos(impl_shape(parse_plain("<br><br/>x</br>", {}))))})
+
+
+# ------------------------------------------------------------------ the text-level theorems (Props.C04 C04_string_tree_partial)
+SIMPLE_NAMES = ["p", "div", "b", "i", "a", "td", "ul", "li", "pre", "rt", "template", "h1", "x9", "scriptx", "styles", "xv"]
+SIMPLE_VOIDS = ["br", "hr", "img", "input", "wbr"]
+SIMPLE_TEXT = ["a", "xy", " ", "\n", "  \t", "é", ">", "\"", "'", ";", "#", "]]", "--", "/", "=", "1 2", "\u2028", "\x00", "☃"]
+BRIDGE_NAME = ("Props.C04 C04_string_tree_partial, evaluated on a generated document of the sub-grammar: simple_doc, wf_doc, "
+               "not rejected, spec_run (adapter (tokenizer (write doc))) = flat (expect doc)")
+
+
+SIMPLE_ATTR_NAMES = ["class", "id", "href", "rel", "headers", "datax", "title", "accesskey", "disabled", "rev", "a1"]
+SIMPLE_ATTR_VALS = ["", "v", "a b", " x  y\tz ", "1", "é", "it's", "<x>", "a\nb", "x=y", "☃ ☃", ">", "/>", "a/b", "=", " "]
+
+
+def gen_simple_attrs(rng):
+    """attributes inside Spec.DocWrite.simple_attrs: lower-case names (repeats allowed), value absent or without the
+    double quote and without '&'"""
+    out = []
+    for _ in range(rng.choice([0, 0, 0, 1, 1, 2, 3])):
+        k = rng.choice(SIMPLE_ATTR_NAMES)
+        out.append([k, [] if rng.random() < 0.25 else [rng.choice(SIMPLE_ATTR_VALS)]])
+    return out
+
+
+def gen_simple_nodes(rng, c, depth, budget):
+    """dnode encodings (Run/D_C04.v g_dnode) inside Spec.DocWrite.simple_doc: lower-case names, simple attributes, no two
+    adjacent pieces of text."""
+    out = []
+    last_text = False
+    voids = [v for v in SIMPLE_VOIDS if is_void(c, v)]
+    elems = [n for n in SIMPLE_NAMES if not is_void(c, n)]
+    for _ in range(rng.randint(0, 5)):
+        if budget[0] <= 0:
+            break
+        budget[0] -= 1
+        r = rng.random()
+        n0 = len(out)
+        if r < 0.22 and not last_text:
+            out.append([0, "".join(rng.choice(SIMPLE_TEXT) for _ in range(rng.randint(1, 3)))])
+            last_text = True
+            continue
+        if r < 0.30:
+            out.append([1, rng.choice(["65", "0", "150", "1114112", "x41", "X4a", "xD800", "00065", "9999999999"])])
+        elif r < 0.38:
+            out.append([2, rng.choice(["amp", "lt", "eacute", "bogus", "a-b", "x.y", "AMP", "nbsp"])])
+        elif r < 0.45:
+            out.append([3, rng.choice(["", " ", "c", "a b", "<p>", "&amp;", ">", "é"])])
+        elif r < 0.49 and depth == 0:
+            out.append([4, rng.choice(["DOCTYPE ", "doctype "]), rng.choice(["html", "", "html PUBLIC \"x\"", " \n"])])
+        elif r < 0.55:
+            out.append([5, rng.choice(["CDATA[", "cdata["]), rng.choice(["", "x", " <a> ", "&amp;", "a>b", "[x"])])
+        elif r < 0.60:
+            out.append([7, rng.choice(["", "pi", "xml version='1'", "php echo 1 ?", " "])])
+        elif r < 0.72 and voids:
+            out.append([8, rng.choice(voids), gen_simple_attrs(rng), [1, 0], rng.randint(0, 2)])
+        elif r < 0.78:
+            out.append([9, rng.choice(elems), gen_simple_attrs(rng), [1, 0]])
+        elif r < 0.84:
+            raw = rng.choice(["script", "style"])
+            if not is_void(c, raw):
+                body = rng.choice(["", "x", "a&b", "if (a > b) { x = \"&amp;\"; }", "p { color: red }\n", "&#65;", "]]>", "-->", "/* é */", " "])
+                out.append([10, raw, gen_simple_attrs(rng), [1, 0], [[0, body]] if body else []])
+        elif depth < 4:
+            out.append([10, rng.choice(elems), gen_simple_attrs(rng), [1, 0], gen_simple_nodes(rng, c, depth + 1, budget)])
+        if len(out) > n0:            # (nothing is appended at the depth limit: the previous node stays the last one)
+            last_text = False
+    return out
+
+
+def bridge_cases(ctx, rng, batch):
+    """Documents of the sub-grammar the text-level theorems cover: the model writes them (Spec.DocWrite.write), evaluates the
+    theorem's hypotheses and conclusion, and the written text goes through every check of this harness like any other
+    written document (real parse ~ model parse of the recorded callbacks ~ ideal callbacks ~ expected tree)."""
+    if not ctx.build.model_ok:
+        return
+    cfgs = [c for c in CONFIGS if c["name"] in ("default", "void-custom", "containers-custom", "pw-custom", "store-off")] or [CONFIG["default"]]
+    docs = []
+    for i in range(3000 if ctx.thorough else 300):
+        c = cfgs[i % len(cfgs)]
+        docs.append((c, gen_simple_nodes(rng, c, 0, [rng.randint(1, 14)])))
+    res = ctx.model.run([[4006, enc_acfg(c), d] for c, d in docs])
+    n_ok = 0
+    for (c, d), m in zip(docs, res):
+        simple, wf, text, tevs, notrej, thm = m
+        text = _s(text)
+        case = {"config": c["name"], "markup": text, "kind": "bridge", "dnodes": d}
+        if simple != 1 or wf != 1:
+            ctx.disagree("generated document is not in Spec.DocWrite.simple_doc / Spec.DocSpec.wf_doc (generator defect)", case,
+                         None, [simple, wf])
+            continue
+        if notrej != 1 or thm != 1:
+            ctx.disagree(BRIDGE_NAME, case, None, [notrej, thm])
+            continue
+        # the real tokenizer fires the ideal callbacks for the written text
+        rec = tokrec.record(text)
+        real = [e for it in rec["items"] for e in it[3]]
+        ideal = tokrec.decode_model([[[0, [1, 0], [], tevs]], 0, [], [], 0, [1, 0]])["items"][0][3]
+        if rec["status"] != 0 or rec["rest"] or real != ideal:
+            ctx.disagree("html.parser.HTMLParser on Spec.DocWrite.write doc ~ Spec.DocWrite.tevs_of doc (the ideal callbacks)", case,
+                         repr(first_diff(real, ideal))[:600], None)
+            continue
+        n_ok += 1
+        # the positions the ideal callbacks carry: those of the start tags, in document order (their truth is C18's subject)
+        starts = iter([it[1] for it in rec["items"] for e in it[3] if e[0] in (0, 1)])
+
+        def label(nodes):
+            for nd in nodes:
+                if nd[0] in (8, 9, 10):
+                    nd[3] = list(next(starts))
+                    if nd[0] == 10:
+                        label(nd[4])
+        label(d)
+        batch.add(c, text, "bridge", written=(d, None))
+    ctx.count("bridge_documents", n_ok)
+
+
+def tokenizer_correspondence(ctx, rng):
+    """Model.Tokenizer against the plain standard-library parser (the full-size run is in C18's check)."""
+    s = tokrec.run_correspondence(ctx, (tokrec.gen_random(rng) for _ in range(40000 if ctx.thorough else 3000)), "random")
+    s3 = tokrec.run_correspondence(ctx, tokrec.exhaustive_small(4 if ctx.thorough else 3), "small")
+    ctx.extra_cov["tokenizer_model"] = {"malformed_stream": s, "exhaustive": s3,
+                                        "exhaustive_scope": "every string of length <= %d over %r" % (4 if ctx.thorough else 3, tokrec.SMALL_ALPHA),
+                                        "skipped_as_unmodelled": 0}
 
 
 WS_SPECIAL = [("<!---->", [["comment", ""]]), ("<p><!--  --></p>", [["elem", "p", [], [["comment", "  "]]]]),
